@@ -8,7 +8,7 @@ ALL = ["C%02d" % i for i in range(1, 21)]
 
 # pid -> (category, technique, text, note, design_ref)
 A_NOTE = "Trusted: the reference link model (core/refmodels.py, written from the adapter documentation), the harness components (thin subclasses of the public SDK classes) and the generic fingerprint (never drops a field). Bounds: see evidence 'bound'. Times on an hour/half-hour lattice."
-A_TECH = "explicit-state breadth-first model checking of the real Composition.run: every next_time is an environment choice, snapshots by deepcopy of the live composition, de-duplication by canonical fingerprint, reference link model as oracle on every transition"
+A_TECH = "explicit-state breadth-first model checking of the real Composition.run (every next_time is an environment choice, snapshots by deepcopy of the live composition, de-duplication by canonical fingerprint) plus stateless depth-first exploration of the same configurations (one uninterrupted run() per execution); reference link model as oracle on every transition"
 
 CHECKS = {
     "C01": (
@@ -35,15 +35,15 @@ CHECKS = {
     "C04": (
         "model_checking",
         A_TECH + "; expected outcome from an independent cycle analysis of the configuration",
-        "All rings of 2-3 (choice mode) and 4-5 (fixed step lists) components with 17 kinds of delay material on every link position/subset, chords, tails, a pull-based node and all/rotated listing orders are executed exhaustively; an unbroken cycle must end in the circular-coupling error (never hang, recursion, TypeError, time/data error or completion), a sufficiently delayed one must complete with the C01/C02 monitors green on every transition.",
+        "All rings of 2-3 (choice mode) and 4-5 (fixed step lists) components with 17 kinds of delay material on every link position/subset, chords, tails, a pull-based node and all/rotated listing orders are executed exhaustively; an unbroken cycle must end in the circular-coupling error (never hang, recursion, TypeError, time/data error or completion), a sufficiently delayed one must complete with the C01/C02 monitors green on every transition. Connect-phase cycles (rings of 2-3 components whose initial data or output metadata depend on the predecessor, all mode combinations and listing orders) must end in the circular-coupling error naming exactly the stuck components; a call cap turns a hang into a violation.",
         A_NOTE + " Delay adapters upstream of a push-notified adapter are not counted as delay material (they cannot take effect).",
         "DESIGN.md section 4, C04",
     ),
     "C05": (
         "model_checking",
         "exhaustive enumeration of all component listing orders x all link creation orders for every configuration, each executed on the real Composition (fixed cyclic step lists) and compared differentially with the identity order",
-        "For every configuration of the stated domain (<=4 components, <=4 links, chains over the adapter alphabet without DelayToPush) every permutation of the component list and of link creation is run; exception class, exchanged metadata, final times and the full (time,value) series of every consumer must be identical. A purely differential oracle, no expected values.",
-        "Trusted: the harness components; identity order as reference. Cycles with positive-but-insufficient delay are excluded (C04 accepts either outcome there).",
+        "For every configuration of the stated domain (<=4 components, <=4 links, chains over the adapter alphabet without DelayToPush) every permutation of the component list and of link creation is run; exception class, exchanged metadata, final times and the full (time,value) series of every consumer must be identical. The connect phase is covered the same way with the dependency shapes of C06 (outcome, stuck list, infos, initial values, initial publications under all listing and link orders). A purely differential oracle, no expected values.",
+        "Trusted: the harness components; identity order as reference. Cycles with positive-but-insufficient delay are excluded (C04 accepts either outcome there). Order-dependent failures caused by the open pull-based-component findings are listed per configuration class in known_findings.json.",
         "DESIGN.md section 4, C05",
     ),
     "C06": (
